@@ -27,7 +27,7 @@ manifest = {
  "setup_cmd": "cd /verif/simcrate && CARGO_NET_OFFLINE=true cargo build --release --offline && /verif/target/release/trampsim selftest --seeds 120",
  "hooks": {
   "guard": "--cfg breez_trampoline_verif",
-  "enable": "shadow manifest /verif/simcrate (lib path = /repo/src/main.rs) built with RUSTFLAGS '--cfg breez_trampoline_verif --cfg tokio_unstable' and TRAMPOLINE_VERIF_HARNESS=/verif/sim/root.rs (see /verif/simcrate/.cargo/config.toml); every ./check invocation rebuilds it from /repo's working tree",
+  "enable": "shadow manifest /verif/simcrate (lib path = /repo/src/main.rs) built with RUSTFLAGS '--cfg breez_trampoline_verif --cfg tokio_unstable' and TRAMPOLINE_VERIF_HARNESS=/verif/sim/root.rs (see /verif/simcrate/.cargo/config.toml); every ./check invocation rebuilds it from /repo's working tree. The shadow crate (only) links tokio 1.38.0 vendored under /verif/vendor/tokio with one cfg-guarded scheduling point added (vendor/tokio/src/verif_hook.rs); /repo's Cargo.toml and Cargo.lock are untouched apart from hook H0",
   "baseline_off_cmd": "cd /repo && cargo test --workspace --no-fail-fast --offline",
   "source_commits": ["d69f6a7", "175d15a", "f03269f", "5b0a80f", "40c4ae6", "be75c4b", "a1971b1", "7648166"],
   "add_only": True
